@@ -69,3 +69,10 @@ Proof.
   - intros z Hz. now apply dec_all_digits.
   - intros z Hz. unfold print_signed. destruct (Z.ltb_spec z 0); [|lia]. eexists. split; [reflexivity|]. apply dec_all_digits. lia.
 Qed.
+
+(* the hypotheses of the bound theorems are satisfiable (and the instance is not vacuous): "1" with point 1, and the
+   empty continuation for the print/parse round trip *)
+Example layout_bound_hypotheses_satisfiable :
+  1 <= zlen [49%N] <= c19_max_digits_double /\ c19_min_exp10_double <= 1 - 1 <= c19_max_exp10_double /\ Z.abs (1 - 1) < 100000 /\
+  shortest kenlm_params false false [49%N] 1 = [49%N] /\ ends_number [] /\ ends_number [32%N].
+Proof. repeat split; try (vm_compute; discriminate); try reflexivity. Qed.
